@@ -64,3 +64,176 @@ class RelIsGroup:
 
     def post(self, result):
         return result == (len(self.children) > 1)
+
+
+# ------------------------------------------------------------------ Feature
+@contract(FM, 'Feature.get_children', prop='C03')
+class FeatGetChildren:
+    def pre(self):
+        return wf()
+
+    def post(self, result):
+        return result == children(self)
+
+
+@contract(FM, 'Feature.get_parent', prop='C03')
+class FeatGetParent:
+    def pre(self):
+        return wf()
+
+    def post(self, result):
+        return result == self.parent
+
+
+@contract(FM, 'Feature.is_root', prop='C03')
+class FeatIsRoot:
+    def pre(self):
+        return wf()
+
+    def post(self, result):
+        return result == (self.parent is None)
+
+
+@contract(FM, 'Feature.is_leaf', prop='C03')
+class FeatIsLeaf:
+    def pre(self):
+        return wf()
+
+    def post(self, result):
+        return result == (len(children(self)) == 0)
+
+
+@contract(FM, 'Feature.is_mandatory', prop='C03')
+class FeatIsMandatory:
+    def pre(self):
+        return wf()
+
+    def post(self, result):
+        return result == (feature_class(self) == MAND)
+
+
+@contract(FM, 'Feature.is_optional', prop='C03')
+class FeatIsOptional:
+    def pre(self):
+        return wf()
+
+    def post(self, result):
+        return result == (feature_class(self) == OPT)
+
+
+@contract(FM, 'Feature.is_or_group', prop='C03')
+class FeatIsOrGroup:
+    def pre(self):
+        return wf()
+
+    def post(self, result):
+        return result == any(rclass(r) == OR_ for r in self.relations)
+
+
+@contract(FM, 'Feature.is_alternative_group', prop='C03')
+class FeatIsAltGroup:
+    def pre(self):
+        return wf()
+
+    def post(self, result):
+        return result == any(rclass(r) == ALT for r in self.relations)
+
+
+@contract(FM, 'Feature.is_mutex_group', prop='C03')
+class FeatIsMutexGroup:
+    def pre(self):
+        return wf()
+
+    def post(self, result):
+        return result == any(rclass(r) == MUTEX for r in self.relations)
+
+
+@contract(FM, 'Feature.is_cardinality_group', prop='C03')
+class FeatIsCardGroup:
+    def pre(self):
+        return wf()
+
+    def post(self, result):
+        return result == any(rclass(r) == CARD for r in self.relations)
+
+
+@contract(FM, 'Feature.is_group', prop='C03')
+class FeatIsGroup:
+    def pre(self):
+        return wf()
+
+    def post(self, result):
+        return result == any(len(r.children) > 1 for r in self.relations)
+
+
+@contract(FM, 'Feature.is_multiple_group_decomposition', prop='C03')
+class FeatIsMultipleGroup:
+    def pre(self):
+        return wf()
+
+    def post(self, result):
+        return result == (sum(1 for r in self.relations if len(r.children) > 1) >= 2)
+
+
+@contract(FM, 'Feature.is_boolean', prop='C03')
+class FeatIsBoolean:
+    def pre(self):
+        return wf()
+
+    def post(self, result):
+        return result == (self.feature_type == FeatureType.BOOLEAN)
+
+
+@contract(FM, 'Feature.is_numerical', prop='C03')
+class FeatIsNumerical:
+    def pre(self):
+        return wf()
+
+    def post(self, result):
+        return result == (self.feature_type == FeatureType.INTEGER or self.feature_type == FeatureType.REAL)
+
+
+@contract(FM, 'Feature.is_string', prop='C03')
+class FeatIsString:
+    def pre(self):
+        return wf()
+
+    def post(self, result):
+        return result == (self.feature_type == FeatureType.STRING)
+
+
+@contract(FM, 'Feature.is_multifeature', prop='C03')
+class FeatIsMulti:
+    def pre(self):
+        return wf()
+
+    def post(self, result):
+        return result == (not (self.feature_cardinality.min == 1 and self.feature_cardinality.max == 1))
+
+
+# ------------------------------------------------------------------ FeatureModel listings
+@contract(FM, 'FeatureModel.get_relations', prop='C03')
+class FMGetRelations:
+    nullable = ('feature',)
+
+    def pre(self, feature):
+        # the guard on an empty root returns [] whatever `feature` is: callers pass features of this model
+        return wf() and (feature is None or len(self.root.relations) > 0 or len(feature.relations) == 0)
+
+    def decreases(self, feature):
+        return height(self.root) + 1 if feature is None else height(feature)
+
+    def post(self, feature, result):
+        return result == rels(self.root if feature is None else feature)
+
+    def post_listing(self, feature, result):
+        return implies(feature is None, seq_eq(result, rels(self.root)))
+
+
+@contract(FM, 'FeatureModel.get_features', prop='C03')
+class FMGetFeatures:
+    def pre(self):
+        return wf()
+
+    def post(self, result):
+        return result == feats(self)
